@@ -129,6 +129,10 @@ def k_scalar(ctx, spec):
         # finish; the complex path is exercised with axis-aligned z whose modulus is an exact power of two (no float rounding in z/|z|)
         for z in (1j, -2j, complex(-4, 0), 0j):
             ctx.eq(dense_chain(z * a, ph), z * A, f'z * a (z = {z})')
+        # division by complex numbers (axis-aligned: z/|z| exact): a / z == (1/z) a, i.e. the CONJUGATE phase
+        for z in (2j, -4j, complex(-2, 0)):
+            zi = {2j: -0.5j, -4j: 0.25j, complex(-2, 0): complex(-0.5, 0)}[z]
+            ctx.eq(dense_chain(a / z, ph), zi * A, f'a / z (z = {z})')
     return {'N': N, 'fam': FAM_SYM[spec['famsym']]}
 
 
@@ -245,6 +249,17 @@ def k_overlap(ctx, spec):
         G = _mk(ctx, rng, ops, N, 'g', 'mpo', 2, None, 'real', symb)
         Hd, Gd = dense_chain(H, ph), dense_chain(G, ph)
         ctx.eq([mps.measure_overlap(H, G)], [(dense.conj(Hd) * Gd).sum()], '<H|G> (MPO overlap = Tr H^dagger G)')
+        # mixed dtypes: complex bra with real ket and vice versa (the conjugation of the bra must not depend on what was contracted before)
+        Hc = _mk(ctx, rng, ops, N, 'hc', 'mpo', 2, None, 'complex', symb)
+        Hcd = dense_chain(Hc, ph)
+        ctx.eq([mps.measure_overlap(Hc, G)], [(dense.conj(Hcd) * Gd).sum()], '<Hc|G> complex bra MPO, real ket MPO')
+        ctx.eq([mps.measure_overlap(G, Hc)], [(dense.conj(Gd) * Hcd).sum()], '<G|Hc> real bra MPO, complex ket MPO')
+        ctx.eq([mps.vdot(Hc, G)], [(dense.conj(Hcd) * Gd).sum()], 'vdot(Hc, G)')
+    if spec['dtype'] == 'real' and N <= 4:
+        ac = _same_charge(ctx, rng, ops, N, a, 'ac', D, 'complex', symb)
+        Ac = dense_chain(ac, ph)
+        ctx.eq([mps.measure_overlap(ac, b)], [(dense.conj(Ac) * B).sum()], '<ac|b> complex bra MPS, real ket MPS')
+        ctx.eq([mps.measure_overlap(b, ac)], [(dense.conj(B) * Ac).sum()], '<b|ac> real bra MPS, complex ket MPS')
     return {'N': N, 'fam': FAM_SYM[spec['famsym']]}
 
 
@@ -261,6 +276,21 @@ def k_mpo_measure(ctx, spec):
     A, B, Hd = dense_chain(a, ph), dense_chain(b, ph), dense_chain(H, ph)
     ref = (dense.conj(A) * mpo_apply(Hd, B, N)).sum()
     ctx.eq([mps.measure_mpo(a, H, b)], [ref], '<a|H|b>')
+    if N <= 3 and sum(ph.D) ** (2 * N) <= 300:
+        # MPO states (purifications): <A| O B> = Tr(A^dagger O B), and with the operator flagged on_bra(): Tr(A^dagger B O); the flag survives
+        # scaling, negation and copies of the operator
+        Am = _mk(ctx, rng, ops, N, 'am', 'mpo', 2, None, 'real', symb)
+        Bm = _mk(ctx, rng, ops, N, 'bm', 'mpo', 2, None, 'real', symb)
+        Amd, Bmd = dense_chain(Am, ph), dense_chain(Bm, ph)
+        OB = mpo_mul(Hd, Bmd, N)
+        BO = mpo_mul(Bmd, Hd, N)
+        ctx.eq([mps.measure_mpo(Am, H, Bm)], [(dense.conj(Amd) * OB).sum()], '<A|O B> for MPO states')
+        Ob = H.on_bra()
+        ctx.eq([mps.measure_mpo(Am, Ob, Bm)], [(dense.conj(Amd) * BO).sum()], '<A|B O> for MPO states, O.on_bra()')
+        ctx.eq([mps.measure_mpo(Am, 2 * Ob, Bm)], [2 * (dense.conj(Amd) * BO).sum()], '<A|B (2 O)>: 2 * O.on_bra()')
+        ctx.eq([mps.measure_mpo(Am, -Ob, Bm)], [-(dense.conj(Amd) * BO).sum()], '<A|B (-O)>: -O.on_bra()')
+        ctx.eq([mps.measure_mpo(Am, Ob.shallow_copy(), Bm)], [(dense.conj(Amd) * BO).sum()], 'O.on_bra().shallow_copy()')
+        ctx.eq([mps.measure_mpo(Am, (2 * H).on_bra(), Bm)], [2 * (dense.conj(Amd) * BO).sum()], '(2 O).on_bra()')
     ctx.eq([mps.vdot(a, H, b)], [ref], 'vdot(a, H, b)')
     if N <= 4:
         G = _mk(ctx, rng, ops, N, 'g', 'mpo', 2, None, 'real', symb)
